@@ -1790,7 +1790,12 @@ def cases_mechanism(chk, drv, ops, vb, vh=None):
                                   f"case '{r['text']}': component '{k}' is labelled {r['comps'].get(k)} but what was placed in it "
                                   f"is {exp['comps'].get(k)} ({exp['why'].get(k)})", replay_of)
                 if r["mode"] != exp["mode"] and not explained:
-                    if r["mode"] == "negative":
+                    if r["mode"] == "positive" and mk == "N":
+                        # with positive generation disabled every generator value (the template's included) is negative and
+                        # no case may be offered as positive: the catalogued template defect is about schemas WITHOUT
+                        # positive values under enabled positive generation, it does not explain this
+                        sig = "C03:_iter_coverage_cases:case-labelled-positive-although-positive-generation-is-disabled"
+                    elif r["mode"] == "negative":
                         sig = "C03:_iter_coverage_cases:negative-case-without-negative-part"
                     elif exp["undocumented"]:
                         sig = SIG_UNDOC_POSITIVE
